@@ -5,6 +5,7 @@ import ProphyModel.Properties.Tables
 import ProphyModel.Lemmas.Statics
 import ProphyModel.PLayout
 import ProphyModel.Properties.DocExamples
+import ProphyModel.Lemmas.PLayoutSpec
 namespace Prophy.C04
 open Prophy
 
@@ -27,5 +28,22 @@ theorem C04_fixed_not_dynamic (t : Ty) (h : Spec.fixedTy t = true) : Spec.dynTy 
 example : Spec.fixedTy DocExamples.Nested3 = true ∧ (Py.stTy (.struct "X" [DocExamples.plain "x" DocExamples.u64,
     DocExamples.plain "y" DocExamples.u32, DocExamples.plain "z" DocExamples.u8, DocExamples.plain "n" DocExamples.Nested3])).size = 32 := by
   decide
+
+
+/-- FULL STATEMENT for prophyc: for every schema prophyc accepts, the alignment, the stiffness
+    kind and the byte size it computes for every type are the documented ones -/
+theorem C04_prophyc_layout (t : Ty) (hf : Accept.front t = true) :
+    (PL.nodeTy t).align = Spec.alignTy t ∧
+    (PL.nodeTy t).kind = (if Spec.unlTy t then 2 else if Spec.dynTy t then 1 else 0) ∧
+    (PL.nodeTy t).size = Spec.sizeTy t :=
+  ⟨PL.nodeTy_align t hf, PL.nodeTy_kind t hf, PL.nodeTy_size t hf⟩
+
+/-- the signed per-member paddings prophyc hands to the C++ generators (>= 0: that many bytes,
+    < 0: align to |p|) reproduce the canonical length of every value of every accepted struct -/
+theorem C04_paddings_give_canonical_length (n : String) (ms : List Member) (vs : List Val)
+    (hf : Accept.front (.struct n ms) = true) (hv : hasType (.struct n ms) (.struct vs) = true) :
+    PL.lengthByPaddings (Spec.memberLens ms vs ms vs) ((PL.structMembers ms).map (·.2.2)) 0
+      = Spec.clen (Spec.chunksTy (.struct n ms) (.struct vs)) :=
+  PL.lengthByPaddings_spec n ms vs hf hv
 
 end Prophy.C04
